@@ -59,6 +59,18 @@ REQUIRED = {
     "Schedule": [{"schedule", "_schedule"}],
     "JobShopInstance": [{"jobs"}],
 }
+# alternative complete covers (each list is a conjunction of alternatives)
+ALTERNATIVE_COVERS = {
+    "JobShopInstance": [[{"durations_matrix"}, {"machines_matrix"}]],
+}
+# derived views that lose information (float32 padding arrays, counts, sums)
+LOSSY_VIEWS = {
+    "durations_matrix_array": "a float32 array: integer durations above 2**24 that differ compare equal",
+    "machines_matrix_array": "a float32 array: large machine ids collapse",
+    "num_jobs": "a count", "num_operations": "a count", "num_machines": "a count",
+    "total_duration": "a sum", "job_durations": "per-job sums", "machine_loads": "per-machine sums",
+    "makespan": "a maximum", "num_scheduled_operations": "a count", "name": "a label",
+}
 CLASS_LEVEL = {"__slots__", "__class__", "__doc__", "__module__", "__annotations__"}
 
 
@@ -176,6 +188,13 @@ def analyse_eq(ctx, fi: FuncInfo) -> EqShape:
                     return
                 pair(node, l, r)
                 return
+        if (
+            positive and isinstance(node, ast.Call)
+            and ast.unparse(node.func) in ("np.array_equal", "numpy.array_equal", "np.array_equiv")
+            and len(node.args) >= 2
+        ):
+            pair(node, node.args[0], node.args[1])
+            return
         # all(getattr(self, s) == getattr(o, s) for s in self.__slots__)
         if (
             positive
@@ -200,9 +219,18 @@ def analyse_eq(ctx, fi: FuncInfo) -> EqShape:
             ):
                 names = [e.value for e in it.elts]
             elt = g.elt
+            if names is not None and gen.ifs and isinstance(gen.target, ast.Name):
+                kept = []
+                for nm in names:
+                    vals = [_const_pred(c, gen.target.id, nm) for c in gen.ifs]
+                    if any(v is None for v in vals):
+                        kept = None
+                        break
+                    if all(vals):
+                        kept.append(nm)
+                names = kept
             if (
                 names is not None
-                and not gen.ifs
                 and isinstance(gen.target, ast.Name)
                 and isinstance(elt, ast.Compare)
                 and len(elt.ops) == 1
@@ -255,6 +283,16 @@ def analyse_eq(ctx, fi: FuncInfo) -> EqShape:
             if isinstance(st, ast.If):
                 g = guard(st)
                 if g:
+                    continue
+                # `if self is other: return True` - reflexive shortcut
+                if (
+                    isinstance(st.test, ast.Compare) and len(st.test.ops) == 1
+                    and isinstance(st.test.ops[0], ast.Is)
+                    and {ast.unparse(st.test.left), ast.unparse(st.test.comparators[0])} <= (self_names | other_names)
+                    and len(st.body) == 1 and isinstance(st.body[0], ast.Return)
+                    and isinstance(st.body[0].value, ast.Constant) and st.body[0].value.value is True
+                    and not st.orelse
+                ):
                     continue
                 # `if cond: return False`  ==  conjunct not cond
                 if (
@@ -338,6 +376,49 @@ def analyse_eq(ctx, fi: FuncInfo) -> EqShape:
     return sh
 
 
+def _const_pred(node, var, value):
+    """Constant-folds a filter predicate over one string constant (the slot
+    name): not / and / or, ==, !=, in, not in, .startswith/.endswith."""
+    def ev(n):
+        if isinstance(n, ast.Name) and n.id == var:
+            return value
+        if isinstance(n, ast.Constant):
+            return n.value
+        if isinstance(n, (ast.Tuple, ast.List, ast.Set)):
+            vs = [ev(e) for e in n.elts]
+            return None if any(v is None for v in vs) else vs
+        if isinstance(n, ast.UnaryOp) and isinstance(n.op, ast.Not):
+            v = ev(n.operand)
+            return None if v is None else (not v)
+        if isinstance(n, ast.BoolOp):
+            vs = [ev(v) for v in n.values]
+            if any(v is None for v in vs):
+                return None
+            return all(vs) if isinstance(n.op, ast.And) else any(vs)
+        if isinstance(n, ast.Compare) and len(n.ops) == 1:
+            a, b = ev(n.left), ev(n.comparators[0])
+            if a is None or b is None:
+                return None
+            op = n.ops[0]
+            if isinstance(op, ast.Eq):
+                return a == b
+            if isinstance(op, ast.NotEq):
+                return a != b
+            if isinstance(op, ast.In):
+                return a in b
+            if isinstance(op, ast.NotIn):
+                return a not in b
+            return None
+        if isinstance(n, ast.Call) and isinstance(n.func, ast.Attribute) and n.func.attr in ("startswith", "endswith") and len(n.args) == 1:
+            a, b = ev(n.func.value), ev(n.args[0])
+            if isinstance(a, str) and isinstance(b, str):
+                return a.startswith(b) if n.func.attr == "startswith" else a.endswith(b)
+        return None
+
+    r = ev(node)
+    return r if isinstance(r, bool) else None
+
+
 def hash_fields(fi: FuncInfo) -> set[str]:
     out = set()
     p0 = fi.params[0]
@@ -385,6 +466,10 @@ def run(ctx):
         for node, msg in sh.problems:
             chk.violation("R15.a", eq, node, msg)
         missing = [alt for alt in required if not (alt & sh.fields)]
+        if missing:
+            for cover in ALTERNATIVE_COVERS.get(ci.name, []):
+                if all(alt & sh.fields for alt in cover):
+                    missing = []
         if missing and not sh.problems and sh.unknown:
             raise AnalysisError(
                 f"{eq.qualname}: unrecognised equality shape "
@@ -395,7 +480,9 @@ def run(ctx):
                 "R15.a", eq, None,
                 "content field(s) never compared: "
                 + ", ".join("/".join(sorted(a)) for a in missing)
-                + f" (compared: {sorted(sh.fields)})",
+                + f" (compared: {sorted(sh.fields)}"
+                + "".join(f"; {f} is {LOSSY_VIEWS[f]}" for f in sorted(sh.fields) if f in LOSSY_VIEWS)
+                + ")",
             )
         elif not missing and not sh.problems:
             chk.ok("R15.a", eq.qualname, eq.loc(), f"compares {sorted(sh.fields)}")
